@@ -312,6 +312,16 @@ thread_local! {
     static ON_CHANGE: RefCell<Option<Box<dyn FnMut(&str)>>> = const { RefCell::new(None) };
 }
 
+thread_local! {
+    /// `BackupOptions::owner` for the backups this thread makes (default true).
+    static RECORD_OWNER: std::cell::Cell<bool> = const { std::cell::Cell::new(true) };
+}
+
+/// Make this thread's following backups with `BackupOptions::owner = on`.
+pub fn set_record_owner(on: bool) {
+    RECORD_OWNER.with(|c| c.set(on));
+}
+
 pub fn set_on_change(f: Option<Box<dyn FnMut(&str)>>) {
     ON_CHANGE.with(|c| *c.borrow_mut() = f);
 }
@@ -345,7 +355,7 @@ pub fn backup_rt(
                 });
                 Ok(())
             })),
-            owner: true,
+            owner: RECORD_OWNER.with(|c| c.get()),
         };
         conserve::backup(&a, source, &options, m).await
     });
